@@ -120,10 +120,11 @@ def make(appname, kind, n, bin_path=FAKE):
     return seqs, cls(seqs, bin_path)
 
 
-def ok_contract(appname, kind, n, order):
+def ok_contract(appname, kind, n, order, noise_kb=0, timeout=None):
     def body(tmpdir, cwd):
         os.environ["FAKE_MSA_BEHAVIOUR"] = "ok"
         os.environ["FAKE_MSA_ORDER"] = order
+        os.environ["FAKE_MSA_NOISE_KB"] = str(noise_kb)
         seqs, app = make(appname, kind, n)
         for getter in ("get_alignment", "get_alignment_order"):
             try:
@@ -139,7 +140,12 @@ def ok_contract(appname, kind, n, order):
             pass
         with warnings.catch_warnings():
             warnings.simplefilter("ignore")
-            app.join()
+            try:
+                app.join() if timeout is None else app.join(timeout=timeout)
+            except TimeoutError:
+                return f"join(timeout={timeout}) timed out although the program finishes at once (it writes {noise_kb} KiB of messages first)"
+            finally:
+                os.environ["FAKE_MSA_NOISE_KB"] = "0"
         if app.get_app_state() != AppState.JOINED:
             return f"state after join is {app.get_app_state()}"
         ali = app.get_alignment()
@@ -231,6 +237,11 @@ for appname in APPS:
                 R.check("start/join: rows and order map back to the inputs; result readable only after join; nothing left behind",
                         f"ok {appname}", {"app": appname, "seqtype": kind, "n": n, "order": order},
                         lambda a=appname, k=kind, n=n, o=order: ok_contract(a, k, n, o))
+    # a chatty program: more output on STDERR than a pipe buffer holds
+    for noise_kb in (1, 300):
+        R.check("start/join: rows and order map back to the inputs; result readable only after join; nothing left behind",
+                f"ok {appname} with {noise_kb} KiB of messages", {"app": appname, "n": 3, "noise_kb": noise_kb},
+                lambda a=appname, nk=noise_kb: ok_contract(a, "nucleotide", 3, "reversed", noise_kb=nk, timeout=20))
     for behaviour in ("exit3", "exit3delete", "garbage", "missing", "hang+timeout", "hang+cancel", "missing-binary"):
         R.check("failed run: error raised, state CANCELLED, results unreadable, clean-up done (no temp file, child or cwd change left)",
                 f"fail {appname} {behaviour}", {"app": appname, "behaviour": behaviour},
